@@ -37,6 +37,7 @@ Concat(ss) == IF ss = <<>> THEN <<>> ELSE Head(ss) \o Concat(Tail(ss))
    [t |-> "num", v]  [t |-> "sym", n]  [t |-> "dot"]  [t |-> "neg", e]  [t |-> "bin", op, l, r]
    op \in {"+", "-", "*", "/", "%", "<<", ">>"}                                                  *)
 Num(v)        == [t |-> "num", v |-> v]
+BadNum(v)     == [t |-> "num", v |-> v, bad |-> TRUE]   \* a literal written with a digit 8 or 9 and no decimal point: reported when evaluated
 Sym(n)        == [t |-> "sym", n |-> n]
 Dot           == [t |-> "dot"]
 Neg(e)        == [t |-> "neg", e |-> e]
@@ -173,7 +174,7 @@ AddrOf(env, i) == IF env.symb THEN OkU(1, env.offs[i], FALSE, { <<p, 1>> : p \in
 
 RECURSIVE Val(_, _, _, _)
 Val(env, e, j, vis) ==
-    CASE e.t = "num" -> Ok(0, e.v, FALSE)
+    CASE e.t = "num" -> IF "bad" \in DOMAIN e THEN Err("digit") ELSE Ok(0, e.v, FALSE)
       [] e.t = "dot" -> IF j <= Len(env.offs) THEN AddrOf(env, j) ELSE Err("cycle")
       [] e.t = "sym" -> LET b == Bind(env.items, e.n, j) IN
                         IF b = 0 THEN Err("undef")
@@ -520,7 +521,8 @@ LinkAlphabet ==        \* C12: .link / leading '. =' with expressions whose depe
 
 LinkTopAlphabet ==     \* C12: images at the top of the address space, negative targets and bases (addresses are taken modulo 2^16)
   { Link(Num(65472)), Link(Num(-64)), DotSet(Num(-32)), DotSet(Num(-2)), DotSet(Num(65504)), DotSet(Bin("-", S, E)), DotSet(Bin("-", Num(0), Num(48))),
-    Lab("s"), Lab("e"), I0("nop"), W(<<E>>), Blkb(Num(3)) }
+    Lab("s"), Lab("e"), I0("nop"), W(<<E>>), Blkb(Num(3)),
+    Link(BadNum(1980)), DotSet(BadNum(2900)) }      \* a base written with a digit 8 or 9 is an error, not the decimal reading
 LinkPadAlphabet ==     \* C12: labels behind a padding whose size is unknown while the base is: it cancels in a difference of two such labels
   { Link(Bin("+", K, Bin("-", E, S))), Link(Bin("+", Bin("-", K, E), S)), Link(Bin("-", K, Bin("*", Num(2), Bin("-", E, S)))),
     [k |-> "even"], [k |-> "align", e |-> Num(4)], By(<<Num(1)>>), Lab("s"), Lab("e"), W(<<S>>), Inc(1), Inc(6) }
